@@ -1,6 +1,14 @@
 #!/bin/bash
-# Regenerates _CoqProject (every .v under theories/) and the Makefile.  Tie files under coq/tie are
-# compiled per run against the freshly generated definitions and are not part of the static build.
+# ./mkproject.sh            -> _CoqProject + Makefile over every .v under theories/ (used by MANIFEST.setup_cmd)
+# ./mkproject.sh C06 C11    -> _CoqProject.C06 + Makefile.C06 over theories/Base, theories/Wave and the named
+#                              directories only (so that a file another property is still editing cannot break
+#                              this property's build).  Tie files under coq/tie are compiled per run, never by make.
 cd "$(dirname "$0")"
-{ echo "-Q theories OdakV"; find theories -name '*.v' | sort; } > _CoqProject
-coq_makefile -f _CoqProject -o Makefile > /dev/null
+if [ $# -eq 0 ]; then
+  { echo "-Q theories OdakV"; find theories -name '*.v' | sort; } > _CoqProject
+  coq_makefile -f _CoqProject -o Makefile > /dev/null
+else
+  tag=$1
+  { echo "-Q theories OdakV"; for d in Base Wave "$@"; do find theories/$d -name '*.v' 2>/dev/null; done | sort -u; } > _CoqProject.$tag
+  coq_makefile -f _CoqProject.$tag -o Makefile.$tag > /dev/null
+fi
